@@ -1,7 +1,7 @@
 #!/usr/bin/env python3
 """Regenerates MANIFEST.json from the table below (claimed checks) and
 properties.jsonl (everything else goes under not_applicable with a reason)."""
-import json
+import json, subprocess
 
 BASELINE_OFF = json.load(open('/root/.vp/BASELINE.json'))['cmd']
 
@@ -84,7 +84,7 @@ def main():
     print("claimed", [c["property_id"] for c in checks], "na", len(na))
 
 NA = {}
-HOOK_COMMITS = []
+HOOK_COMMITS = subprocess.run(['git','-C','/repo','log','--format=%H','--grep=^verif:'],capture_output=True,text=True).stdout.split()
 
 if __name__ == '__main__':
     main()
